@@ -25,8 +25,12 @@ N = {"quick": 260, "thorough": 6000}
 B_GRID = list(range(2, 201)) + [500, 1000, 10000]
 
 
+N_PRES = {"quick": 40, "thorough": 1000}
+
+
 def cases(tier, seed):
     out = [dict(part="tables", seed=seed, i=i) for i in range(N[tier])]
+    out += [dict(part="pres", seed=seed, i=400000 + i) for i in range(N_PRES[tier])]
     chunk = 10
     for j in range(0, len(B_GRID), chunk):
         out.append(dict(part="ranks", seed=seed, i=700000 + j, Bs=B_GRID[j:j + chunk]))
@@ -43,7 +47,98 @@ def alpha_grid(seed):
 def run_case(spec, inputs=None):
     if spec["part"] == "ranks":
         return run_ranks(spec)
+    if spec["part"] == "pres":
+        return run_pres(spec)
     return run_tables(spec, inputs)
+
+
+def run_pres(spec):
+    """The optional correction from the presidential race (model_parameters['correct_from_presidential']) shifts the
+    bootstrapped unit margins; the result must still respect the feasible ranges.  The three presidential files are
+    served by a fake storage client, the run goes through the real ModelClient.get_estimates."""
+    import datetime
+    import io
+
+    import pandas as pd
+
+    from .. import cases as cases_mod
+
+    harness.client_mod()
+    from elexmodel.handlers import s3 as s3mod
+
+    out = dict(violations=[], counters={}, sets={}, nontrivial=False)
+    rng = gen.rng_for(spec["seed"], PROPERTY, spec["i"], salt=4)
+    o = dict(estimator="bootstrap", district=False, el_geo_county=True, el_n_units=int(rng.integers(40, 120)),
+             el_n_states=int(rng.integers(1, 3)), feed_p_partial=0.9, feed_frac_reporting=float(rng.uniform(0.3, 0.6)),
+             feed_n_unexpected=0, feed_n_missing=0, threshold=100, B=int(gen.choice(rng, [5, 10, 30])), lambda_=1.0,
+             alphas=[0.7, 0.9], aggregates=["postal_code", "county_fips", "unit"], fixed_effects={},
+             allow_geo_county=True)
+    el, feed, status, call = cases_mod.build(spec["seed"], PROPERTY, spec["i"], o)
+    call["model_parameters"]["correct_from_presidential"] = True
+    # partial units between 50 and 99 percent so that their clip bounds are informative
+    for j in range(len(feed)):
+        if status.get(feed.loc[j, "geographic_unit_fips"]) == "partial":
+            feed.loc[j, "percent_expected_vote"] = float(rng.integers(50, 100))
+    # presidential files: strongly one-sided predictions and a large gap to the down-ballot partial count
+    side = float(gen.choice(rng, [1.0, -1.0]))
+    pres_rows, res_rows, base_rows = [], [], []
+    fr = feed.set_index("geographic_unit_fips")
+    for r in el.pre.to_dict(orient="records"):
+        f = r["geographic_unit_fips"]
+        pt = float(r["baseline_dem"] + r["baseline_gop"]) * float(rng.uniform(0.8, 1.2)) + 1
+        lean = side * float(rng.uniform(0.6, 0.95))
+        rw = float(fr.loc[f, "results_dem"] + fr.loc[f, "results_gop"]) if f in fr.index else 0.0
+        nm = (float(fr.loc[f, "results_dem"] - fr.loc[f, "results_gop"]) / rw) if rw else 0.0
+        gap = side * float(rng.uniform(0.1, 0.4))
+        pres_rows.append(dict(geographic_unit_fips=f, pred_margin=lean * pt, pred_turnout=pt,
+                              results_margin=(nm - gap) * max(rw, 1.0)))
+        res_rows.append(dict(geographic_unit_fips=f, results_weights=max(rw, 1.0)))
+        base_rows.append(dict(geographic_unit_fips=f, baseline_dem=r["baseline_dem"], baseline_gop=r["baseline_gop"]))
+    files = {"data/P/data_county.csv": pd.DataFrame(base_rows), "results/P/county/current.csv": pd.DataFrame(res_rows),
+             "predictions/P/county/unit_data/current.csv": pd.DataFrame(pres_rows)}
+    reads = []
+
+    class FakeClient:
+        def get_object(self, **kw):
+            key = kw["Key"]
+            for suffix, df in files.items():
+                if key.endswith(suffix):
+                    reads.append(suffix)
+                    return {"Body": io.BytesIO(df.to_csv(index=False).encode()), "LastModified": datetime.datetime(2030, 1, 1)}
+            raise RuntimeError("unexpected remote read " + key)
+
+        def put_object(self, **kw):
+            return {}
+
+    with harness.patched() as p:
+        p.set(s3mod.boto3, "client", lambda *a, **k: FakeClient())
+        res, exc, client = harness.run_estimates(el, feed, call, want_client=True)
+    cm = harness.client_mod()
+    if exc is not None:
+        if isinstance(exc, cm.ModelNotEnoughSubunitsException):
+            out["counters"]["not_enough_units"] = 1
+        else:
+            info = harness.exc_info(exc)
+            out["counters"]["pres_run_raised"] = 1
+            out["sets"]["raised"] = [info["type"] + ":" + info["where"][-70:] + ":" + info["msg"][:80]]
+        return out
+    out["counters"]["pres_runs"] = 1
+    out["counters"]["pres_files_read"] = len(reads)
+    vs, cnt = checker(el, feed, call, res, client)
+    for v in vs:
+        v["key"] = v["key"].replace("C06/", "C06/presidential-correction/")
+    out["violations"] = vs
+    out["counters"].update(cnt)
+    m = client.model
+    shifted = int(np.sum(np.abs(np.asarray(m.weighted_yz_test_pred)) > 0))
+    out["nontrivial"] = shifted > 0
+    out["sig"] = ["pres", call["model_parameters"]["B"], side, el.meta["n_states"]]
+    if vs:
+        out["inputs"] = gen.materialise(el, feed, call)
+    if spec["i"] % 10 == 0:
+        out["sample"] = gen.jsonable(dict(part="presidential correction", election=el.meta, side=side, files_read=reads,
+                                          unit_rows=res["unit_data"].head(3)))
+    return out
 
 
 def run_ranks(spec):
@@ -99,6 +194,9 @@ def checker(el, feed, call, res, client):
         pt = u.get("pred_turnout")
         if pt is None or not np.isfinite(pt) or pt < 0:
             V("C06/unit/pred-turnout", f"unit {u['geographic_unit_fips']}: pred_turnout={pt}")
+        elif abs(u["pred_margin"]) > pt * (1 + 1e-9) + 1e-9:
+            V("C06/unit/margin-exceeds-turnout", f"unit {u['geographic_unit_fips']}: |pred_margin|={abs(u['pred_margin'])} "
+              f"> pred_turnout={pt} (normalised margin outside [-1,1])")
     groups_with_non = 0
     for tname, tdf in res.items():
         if tname not in ref.LEVEL_OF:
